@@ -317,6 +317,38 @@ func (s Seq) Bits() []uint8 {
 				out[st+l] = v ^ 1
 			}
 		}
+	case "maurergap": // 7-bit blocks of seeded filler that never equals a marked pattern; the mark occurs at block 1300 and 1300+A (B=0) or first at block A (B=1)
+		mark := r.Intn(128)
+		nblk := n / 7
+		put := func(blk, v int) {
+			if blk < 0 || blk >= nblk {
+				return
+			}
+			for j := 0; j < 7; j++ {
+				out[blk*7+j] = uint8(v >> uint(6-j) & 1)
+			}
+		}
+		for blk := 0; blk < nblk; blk++ {
+			v := r.Intn(127)
+			if v >= mark {
+				v++
+			}
+			put(blk, v)
+		}
+		if s.B == 1 {
+			put(s.A-1, mark)
+		} else {
+			put(1300, mark)
+			put(1300+s.A, mark)
+		}
+	case "maurersparse": // all-zero 7-bit blocks except all-one blocks at block numbers A, A+33263 and B
+		for _, blk := range []int{s.A, s.A + 33263, s.B} {
+			if blk > 0 && (blk+1)*7 <= n {
+				for j := 0; j < 7; j++ {
+					out[blk*7+j] = 1
+				}
+			}
+		}
 	case "bytepat": // Hex pattern bytes repeated
 		pat, _ := hex.DecodeString(s.Hex)
 		if len(pat) == 0 {
